@@ -509,3 +509,52 @@ Definition tables_okb (T : regtables) : bool :=
                                 end)
                      (combine bit_indices (snd e)))
           (t_masks T).
+
+(** ============================================================ hypotheses of the theorems *)
+
+(** What the round-trip theorems need from the registry: every registered name is an identifier
+    (hence not empty, not number-like, no "0x" prefix, no separator or quote), a tag name is not the
+    reserved element name TTLV, the reverse maps send names back, a mask has at most 32 names and
+    name i stands for bit i.  (tables_okb checks it on dumped tables; see tables_ok_sound.) *)
+Record registry_ok (G : registry) : Prop := {
+  rk_tag : forall t n, r_tag_name G t = Some n ->
+           ident_ok n = true /\ n <> s_TTLV /\ r_tag_by_name G n = Some t;
+  rk_enum : forall t v n, r_enum_name G t v = Some n ->
+            ident_ok n = true /\ r_enum_by_name G t n = Some v;
+  rk_mask : forall t i n, nth_error (r_mask_names G t) i = Some n ->
+            (i < 32)%nat /\ ident_ok n = true /\ r_mask_by_name G t n = Some (bit32 (Z.of_nat i));
+}.
+
+Definition tag_ok (tag : Z) : bool := (0 <=? tag) && (tag <? 2 ^ 24).
+
+(** items a text format represents: values in their Go ranges (as item_ok of Wire.v), text the
+    format can carry ([txt]), dates in years 1..9999 *)
+Fixpoint text_item_ok (txt : list Z -> bool) (i : item) : bool :=
+  match i with
+  | IStruct tag kids => tag_ok tag && forallb (text_item_ok txt) kids
+  | IInt tag v | IMask tag _ v => tag_ok tag && in_i32 v
+  | ILong tag v => tag_ok tag && in_i64 v
+  | IBig tag _ | IBool tag _ => tag_ok tag
+  | IEnum tag _ v | IIntv tag v => tag_ok tag && in_u32 v
+  | IText tag s => tag_ok tag && txt s
+  | IBytes tag s => tag_ok tag && bytes_ok s
+  | IDate tag v => tag_ok tag && date_ok v
+  end.
+Definition xml_item_ok := text_item_ok xml_text_ok.
+Definition json_item_ok := text_item_ok json_text_ok.
+
+(** items that are the writer calls of a ttlv.Value tree (Value.TagEncodeTTLV): no bit-mask call,
+    enumerations without real-tag hint, and no child with tag 0 (Struct.TagDecodeTTLV stops there) *)
+Fixpoint value_item (i : item) : bool :=
+  match i with
+  | IStruct _ kids => forallb (fun k => negb (itag k =? 0) && value_item k) kids
+  | IEnum _ rtag _ => rtag =? 0
+  | IMask _ _ _ => false
+  | _ => true
+  end.
+
+Fixpoint item_size (i : item) : nat :=
+  match i with
+  | IStruct _ kids => S (fold_right (fun k n => item_size k + n)%nat O kids)
+  | _ => 1%nat
+  end.
